@@ -29,9 +29,10 @@ import (
 
 // Step is one action of the script.
 type Step struct {
-	Op   string `json:"op"`             // validate | load | reload (SIGUSR1) | restart (Instance.Restart) | occupy | release | sigterm | sigint | wait
+	Op   string `json:"op"`             // validate | load | reload (SIGUSR1) | restart (Instance.Restart) | occupy | release | writefile | sigterm | sigint | wait
 	Text string `json:"text"`           // Casketfile text
 	Port string `json:"port,omitempty"` // for occupy/release
+	Path string `json:"path,omitempty"` // for writefile: file name inside Dir, written with Text
 	N    int    `json:"n,omitempty"`    // repeat count for signals
 }
 
@@ -252,6 +253,8 @@ func run(scriptPath string) int {
 					return
 				}
 				done <- fmt.Errorf("HUNG-RELOAD")
+			case "writefile":
+				done <- os.WriteFile(filepath.Join(sc.Dir, filepath.Base(st.Path)), []byte(st.Text), 0o644)
 			case "occupy":
 				l, err := net.Listen("tcp", "127.0.0.1:"+st.Port)
 				if err == nil {
